@@ -24,5 +24,10 @@ ZoneVecs == { v \in [1..4 -> 0..CaseMaxN] :
 CaseSet == { [zones |-> v, rf |-> r] : v \in ZoneVecs, r \in 1..(CaseMaxN + 1) }
 Cases == { c \in CaseSet : c.rf <= c.zones[1] + c.zones[2] + c.zones[3] + c.zones[4] + 1 }
 CasesFile == IF "VERIF_CASES" \in DOMAIN IOEnv THEN IOEnv.VERIF_CASES ELSE "cases.ndjson"
-ASSUME ndJsonSerialize(CasesFile, SetToSeq(Cases))
+(* phase 2: validation paths -- wrong / unusual configurations x listed endpoints x rf *)
+VKinds == {"malformed", "noaddr", "emptylist", "emptyeps", "dup", "unknownalgo", "partaz", "hashmodaz"}
+ValCases == { [vkind |-> k, n |-> m, rf |-> r] : k \in VKinds, m \in 0..4, r \in 1..3 }
+(* the algorithm-level answer never claims a ketama ring with fewer endpoints than replicas *)
+ASSUME \A c \in ValCases : c.vkind \in {"emptyeps", "dup", "partaz"} /\ BuildOutcomeV(c.vkind, c.n, c.rf) = "ok" => c.n >= c.rf
+ASSUME ndJsonSerialize(CasesFile, SetToSeq(Cases) \o SetToSeq(ValCases))
 =============================================================================
